@@ -358,7 +358,7 @@ theorem write_crash {s : State} {a : Nat} {ess : List (List Entry)} {ec : List E
 
 /-- the optional rotation before an entry is written, with its crash states -/
 theorem pre_crash (hp : p.WF) {s : State} {a : Nat} {ess : List (List Entry)} {ec : List Entry}
-    (r : LogRepW p s a ess ec) (re : Entry) (hok : re.OK) (hfit : re.Fits p) :
+    (r : LogRepW p s a ess ec) (re : Entry) (hok : re.OK) :
     ∃ s1 ess1 ec1 pre,
       (if needRotate p s.next ((p.dataOff + total ec : Nat) : Int) re.data.size then rotateMuts p s (p.dataOff + total ec) else []) = pre ∧
       (if needRotate p s.next ((p.dataOff + total ec : Nat) : Int) re.data.size then
@@ -369,12 +369,11 @@ theorem pre_crash (hp : p.WF) {s : State} {a : Nat} {ess : List (List Entry)} {e
       (∀ x ∈ crashStates p s pre, ∃ ess' ec', DirRep p x a ess' ec' ∧ ess'.flatten ++ ec' = ess.flatten ++ ec ∧ x.mt = s.mt) ∧
       SameDir (applyMuts p s pre) s1 ∧ s1.mt = s.mt := by
   rw [r.next_eq, needRotate_nat]
-  by_cases hrot : (decide (ec.length ≥ p.cap) || decide (p.dataOff + total ec + 4 + re.data.size > p.maxSize)) = true
+  by_cases hrot : (decide (ec.length ≥ p.cap) || (decide (ec.length > 0) && decide (p.dataOff + total ec + 4 + re.data.size > p.maxSize))) = true
   · have hne : ec ≠ [] := by
       intro h; subst h
       have h1 := hp.cap_pos
-      have h2 : p.dataOff + 4 + re.data.size ≤ p.maxSize := hfit
-      simp [total] at hrot; omega
+      simp at hrot; omega
     obtain ⟨hc, hsd⟩ := rotate_crash hp r hne
     refine ⟨_, ess ++ [ec], [], rotateMuts p s (p.dataOff + total ec), by rw [if_pos hrot], ?_, r.rotate_ok hp hne, by simp,
       by have := hp.cap_pos; simp; omega, ?_, ?_, hsd, rfl⟩
@@ -386,7 +385,15 @@ theorem pre_crash (hp : p.WF) {s : State} {a : Nat} {ess : List (List Entry)} {e
       · exact ⟨ess ++ [ec], [], h1, by simp, h2⟩
   · refine ⟨s, ess, ec, [], by rw [if_neg hrot], by rw [if_neg hrot], r, rfl, ?_, ?_, ?_, SameDir.refl s, rfl⟩
     · simp at hrot; omega
-    · have := hp.maxSize_lt; simp at hrot; omega
+    · have h1 := hp.maxSize_lt
+      have h2 := hp.dataOff_lt
+      have h3 := hok.size_lt
+      simp at hrot
+      by_cases he : ec.length > 0
+      · have := hrot.2 he; omega
+      · have : ec = [] := List.eq_nil_of_length_eq_zero (by omega)
+        subst this
+        simp [total]; omega
     · intro x hx
       simp only [crashStates, List.mem_singleton] at hx
       subst hx
@@ -396,7 +403,7 @@ theorem pre_crash (hp : p.WF) {s : State} {a : Nat} {ess : List (List Entry)} {e
 new ones; and the mutation list, applied completely, is `addLoop` -/
 theorem loop_crash (hp : p.WF) {a : Nat} :
     ∀ (new : List Entry) (s : State) (ess : List (List Entry)) (ec : List Entry),
-      LogRepW p s a ess ec → (∀ e ∈ new, e.OK ∧ e.Fits p) → Seq (a + ess.flatten.length + ec.length) new →
+      LogRepW p s a ess ec → (∀ e ∈ new, e.OK) → Seq (a + ess.flatten.length + ec.length) new →
       (∀ x ∈ crashStates p s (addLoopMuts p new s (p.dataOff + total ec)),
         ∃ j, j ≤ new.length ∧ ∃ ess' ec', DirRep p x a ess' ec' ∧ ess'.flatten ++ ec' = ess.flatten ++ ec ++ new.take j ∧
           x.mt = s.mt) ∧
@@ -416,10 +423,10 @@ theorem loop_crash (hp : p.WF) {a : Nat} :
     have hidx : re.index = a + ess.flatten.length + ec.length := by
       have := hseq 0 (by simp)
       simp only [List.getElem_cons_zero] at this; omega
-    obtain ⟨s1, ess1, ec1, pre, hpre, heq, r1, hall, hlen, hend, hcpre, hsdpre, hmt1⟩ := pre_crash hp r re hre.1 hre.2
+    obtain ⟨s1, ess1, ec1, pre, hpre, heq, r1, hall, hlen, hend, hcpre, hsdpre, hmt1⟩ := pre_crash hp r re hre
     have hfl : ess1.flatten.length + ec1.length = ess.flatten.length + ec.length := by
       have := congrArg List.length hall; simpa using this
-    have r2 := r1.write re hre.1 hlen hend (by omega)
+    have r2 := r1.write re hre hlen hend (by omega)
     have hno : (nextOffset ((p.dataOff + total ec1 : Nat) : Int) (re.data.size : Int)).toNat = p.dataOff + total (ec1 ++ [re]) := by
       rw [nextOffset_nat, total_append]; simp [total, recLen]; omega
     obtain ⟨ihc, ihs⟩ := ih _ ess1 (ec1 ++ [re]) r2 (fun e he => hok e (by simp [he]))
@@ -428,7 +435,7 @@ theorem loop_crash (hp : p.WF) {a : Nat} :
         simp only [List.length_append, List.length_cons, List.length_nil]
         rw [show a + ess1.flatten.length + (ec1.length + (0 + 1)) = a + ess.flatten.length + ec.length + 1 by omega]
         exact this)
-    have hw := write_crash r1 re hre.1 hlen hend (by omega)
+    have hw := write_crash r1 re hre hlen hend (by omega)
     simp only [addLoopMuts, addLoop]
     rw [hpre, heq]
     simp only
